@@ -43,7 +43,8 @@ type c10Model struct {
 }
 
 var c10Subjects = []string{"plain subject", "Grüße aus München", "日本語の件名", "with  two blanks", "semi; colon = equals", "a very long subject line that will certainly be folded by the header writer because it exceeds the limit ÄÖÜ", "quotes \"inside\" subject", "emoji 😀 subject"}
-var c10FileNames = []string{"file.txt", "image.png", "with space.txt", "ümlaut.txt", "日本語.pdf", "semi;colon.txt", "equals=sign.txt", "a;b=c;d.bin", "comma,name.txt", "paren(1).txt", "percent%20.txt", "UPPER.TXT", "noext", "emoji😀.png", "dot.", "a-very-long-file-name-that-goes-on-and-on-and-on-for-more-than-seventy-characters-in-total.txt"}
+var c10FileNames = []string{"file.txt", "image.png", "with space.txt", "ümlaut.txt", "日本語.pdf", "semi;colon.txt", "equals=sign.txt", "a;b=c;d.bin", "comma,name.txt", "paren(1).txt", "percent%20.txt", "UPPER.TXT", "noext", "emoji😀.png", "dot.", "a-very-long-file-name-that-goes-on-and-on-and-on-for-more-than-seventy-characters-in-total.txt",
+	"длинное-имя-файла-которое-превышает-семьдесят-пять-символов-в-кодировке.txt", "Übergrößenträger Änderungsübersicht für Österreich und Zürich überarbeitet.pdf", "日本語のとても長いファイル名でエンコードされた単語が複数に分割される例.pdf", "long name with spaces and ümlauts äöü that needs several encoded words to fit.txt"}
 
 func genC10(r *mrand.Rand, id string) c10Case {
 	np := gen.Pick(r, []int{1, 1, 2, 2, 3})
